@@ -13,6 +13,7 @@ import (
 	"runtime"
 	"runtime/debug"
 	"strings"
+	"sync/atomic"
 	"time"
 	"unsafe"
 )
@@ -78,6 +79,7 @@ type Thread struct {
 	wake    uint32
 	exited  uint32
 	done    bool
+	fence   int64
 	endDone bool // done when the execution ended (before the abort pass finished every thread)
 	started bool
 	Daemon  bool
@@ -183,6 +185,11 @@ type Exec struct {
 
 var cur *Exec
 
+// execFence orders executions for the race detector: the driver releases it after every thread of
+// an execution has exited, every thread acquires it when it starts. Within one execution it adds no
+// happens-before edge (only the driver ever writes it).
+var execFence int64
+
 // fairLimit: see schedule.
 const fairLimit = 2000
 
@@ -265,7 +272,10 @@ func (ex *Exec) thrKey(t *Thread) uint64 {
 
 //go:norace
 func (ex *Exec) threadMain(t *Thread) {
-	defer func() { t.exited = 1 }()
+	defer func() {
+		atomic.StoreInt64(&t.fence, 1) // release: the driver acquires it before it judges the execution
+		t.exited = 1
+	}()
 	ex.threadBody(t)
 	if ex.aborting {
 		t.done = true
@@ -283,6 +293,7 @@ func (ex *Exec) threadBody(t *Thread) {
 		}
 	}()
 	park(t)
+	atomic.LoadInt64(&execFence) // acquire: everything earlier executions did happens before this thread
 	if ex.aborting {
 		return
 	}
